@@ -146,6 +146,20 @@ func mdOf(tok int) metadata.MD {
 	return metadata.Pairs(key, strconv.Itoa(tok))
 }
 
+// scribbleMD overwrites every value of md in place and adds values under both user keys.
+func scribbleMD(md metadata.MD, overwrite, add string) {
+	if md == nil {
+		return
+	}
+	for _, vs := range md {
+		for i := range vs {
+			vs[i] = overwrite
+		}
+	}
+	md["x-a"] = append(md["x-a"], add)
+	md["x-b"] = append(md["x-b"], add)
+}
+
 func statusOf(st Step) error {
 	msg := "err" + strconv.Itoa(st.V)
 	switch st.Code {
@@ -179,6 +193,7 @@ func serve(c *call, ctx context.Context, stream grpc.ServerStream, first proto.M
 		c.done <- sres{Op: "recv", Kind: "msg", V: valOf(first)}
 	}
 	close(c.entered)
+	var lastMD metadata.MD
 	for {
 		var cmd scmd
 		select {
@@ -209,24 +224,43 @@ func serve(c *call, ctx context.Context, stream grpc.ServerStream, first proto.M
 			default:
 				fail(err)
 			}
-		case "sethdr":
-			if stream == nil || st.X == 1 {
-				fail(grpc.SetHeader(ctx, mdOf(st.Md)))
-			} else {
-				fail(stream.SetHeader(mdOf(st.Md)))
+		case "sethdr", "sendhdr", "settrl":
+			// x bit 0: through the context helpers; x bit 1: the handler recycles the metadata.MD
+			// object of its previous metadata op.  Either way it keeps using the object afterwards
+			// (scribbleMD): a server copies metadata when it is handed over.
+			md := mdOf(st.Md)
+			if st.X >= 2 && lastMD != nil {
+				for k := range lastMD {
+					delete(lastMD, k)
+				}
+				for k, v := range md {
+					lastMD[k] = v
+				}
+				md = lastMD
 			}
-		case "sendhdr":
-			if stream == nil || st.X == 1 {
-				fail(grpc.SendHeader(ctx, mdOf(st.Md)))
-			} else {
-				fail(stream.SendHeader(mdOf(st.Md)))
+			viaCtx := stream == nil || st.X%2 == 1
+			switch st.S {
+			case "sethdr":
+				if viaCtx {
+					fail(grpc.SetHeader(ctx, md))
+				} else {
+					fail(stream.SetHeader(md))
+				}
+			case "sendhdr":
+				if viaCtx {
+					fail(grpc.SendHeader(ctx, md))
+				} else {
+					fail(stream.SendHeader(md))
+				}
+			case "settrl":
+				if viaCtx {
+					fail(grpc.SetTrailer(ctx, md))
+				} else {
+					stream.SetTrailer(md)
+				}
 			}
-		case "settrl":
-			if stream == nil || st.X == 1 {
-				fail(grpc.SetTrailer(ctx, mdOf(st.Md)))
-			} else {
-				stream.SetTrailer(mdOf(st.Md))
-			}
+			scribbleMD(md, "99", "98")
+			lastMD = md
 		case "send":
 			m := newResp(c.shape, st.V)
 			c.mu.Lock()
